@@ -21,9 +21,13 @@ identify generator/draw (D11, D23: listed findings, specific signatures); differ
 encoding lost information (`C13:collision`, never suppressed).
 """
 import itertools
+import json
 import math
+import os
 import random
 import re
+import subprocess
+import sys
 import traceback
 from contextlib import contextmanager
 
@@ -31,7 +35,7 @@ from . import common
 
 SPEC = {
     "lean": ["SnowModel.Props.C13", "SnowModel.Props.C13Bridge"],
-    "pins": ["ScrambledNumbers", "UniqueId", "UniqueIdBuiltins"],
+    "pins": ["ScrambledNumbers", "UniqueId", "UniqueIdBuiltins", "PluginContinuation"],
     "harness": "harness.c13",
     "technique": "Lean 4 theorems (injectivity of the octal/9 tuple coding, of the keyed scramble for every mask and log function, of base-N with zero-digit padding; composition per generator and across generators; invariant over arbitrary create/draw sequences) + pins regenerated from the AST + differential correspondence at function and recipe level",
     "level_text": "Machine-checked proof that, in the model of the UniqueId machinery, equal ids imply equal (pid, context, index, literal) tuples for every template, pid, alphabet of >= 2 distinct characters, min_chars, mask function and float-log behaviour; hence a generator with `index` never repeats and generators sharing a template with `context` never collide. The model is tied to the source by bridging lemmas over expressions/constants/wiring regenerated from the AST on every run and by differential runs of generated generator configurations (function level and through recipes, both id modes).",
@@ -385,6 +389,12 @@ def recipe_text(case):
     if case.get("version") == 3:
         lines.append("- snowfakery_version: 3")
     lines.append("- plugin: snowfakery.standard_plugins.UniqueId")
+    for j, t in enumerate(case.get("holders", [])):
+        # a generator object stored in a hidden field of a just_once row (persisted by a continuation)
+        lines += [f"- object: H{j}", "  just_once: True", "  fields:", "    __gen:", "      UniqueId.NumericIdGenerator:"]
+        if t is not None:
+            lines.append(f"        template: \"{t}\"")
+        lines.append("    first: ${{__gen.unique_id}}")
     for i, g in enumerate(case["gens"]):
         lines.append(f"- var: G{i}")
         lines.append("  value:")
@@ -408,6 +418,8 @@ def recipe_text(case):
     for j, f in enumerate(case["fields"]):
         if f[0] == "g":
             expr = f"G{f[1]}.unique_id"
+        elif f[0] == "h":
+            expr = f"H{f[1]}.__gen.unique_id"
         elif f[0] == "builtin_id":
             expr = "unique_id"
         elif f[0] == "plugin_id":
@@ -418,10 +430,13 @@ def recipe_text(case):
     return "\n".join(lines) + "\n"
 
 
-def recipe_ops(case, defaults):
+def recipe_ops(case, defaults, reps=None, restored=None):
     """The create/draw sequence the interpreter performs for this recipe shape: every `var` is
     re-evaluated in every iteration (a new generator each time); the builtin / plugin default
-    generators are created at first use and live for the whole run."""
+    generators are created at first use and live for the whole run. just_once holders are
+    created (and drawn from once) in the first iteration of a fresh run; in a resumed run
+    (`restored` = what the model says was persisted, per holder) they are rebuilt while the
+    continuation file is loaded, before anything else."""
     big = bool(case.get("big_ids"))
     pp = pid_parts(case.get("pid"))
     ops, meta = [], []  # meta: per handle dict(template, kind, alphabet, min_chars, randomize)
@@ -441,7 +456,22 @@ def recipe_ops(case, defaults):
             meta.append({"kind": "alpha", "template": t, "alphabet": alphabet or defaults["alphabet"], "min_chars": mc, "randomize": rz})
         return len(meta) - 1
 
-    for _ in range(case["reps"]):
+    holders = []
+    if restored is not None:
+        for sv in restored:
+            t = ",".join(str(x) for x in sv["parts"])
+            # `cls(**state)` passes no pid: a restored generator ignores the pid option and falls
+            # back to the clock / os pid of the resuming process
+            ops.append(["restore", t, pid_parts(None), bool(sv["randomize"]), sv["start"]])
+            meta.append({"kind": "num", "template": t, "alphabet": None, "min_chars": None, "randomize": bool(sv["randomize"])})
+            holders.append(len(meta) - 1)
+    for it in range(case["reps"] if reps is None else reps):
+        if it == 0 and restored is None:
+            for t in case.get("holders", []):
+                h = create("num", t)
+                holders.append(h)
+                ops.append(["draw", h])
+                draws.append(h)
         hs = []
         for g in case["gens"]:
             if g["type"] == "num":
@@ -452,6 +482,8 @@ def recipe_ops(case, defaults):
             for f in case["fields"]:
                 if f[0] == "g":
                     h = hs[f[1]]
+                elif f[0] == "h":
+                    h = holders[f[1]]
                 else:
                     if f[0] not in persistent:
                         persistent[f[0]] = create("alpha" if f[0] == "builtin_alpha" else "num", None)
@@ -474,6 +506,216 @@ def real_recipe(case):
     return first, r, created
 
 
+# ------------------------------------------------------------------ continuation resumed in a fresh process
+
+
+def run_child(job, timeout=120):
+    """One recipe run in a fresh Python process (harness/c13_child.py)."""
+    env = dict(os.environ)
+    env["VERIF_REPO"] = common.REPO
+    env["PYTHONPATH"] = common.ROOT + os.pathsep + common.REPO
+    env.setdefault("PYTHONHASHSEED", "0")
+    p = subprocess.run([sys.executable, "-m", "harness.c13_child"], cwd=common.ROOT, env=env,
+                       input=json.dumps(dict(job, repo=common.REPO)).encode(), stdout=subprocess.PIPE,
+                       stderr=subprocess.PIPE, timeout=timeout)
+    lines = [ln for ln in p.stdout.decode(errors="replace").splitlines() if ln.startswith("{")]
+    if p.returncode != 0 or not lines:
+        return {"outcome": "child-failed", "error": p.stderr.decode(errors="replace")[-1500:], "rows": [], "created": [],
+                "continuation": None, "first_ctx": None}
+    return json.loads(lines[-1])
+
+
+def resume_pair(case):
+    """Run 1 (fresh process, writes a continuation file) and run 2 (another fresh process that
+    resumes from it)."""
+    opts = {}
+    if case.get("pid") is not None:
+        opts["pid"] = str(case["pid"])
+    if case.get("big_ids") is not None:
+        opts["big_ids"] = "True" if case["big_ids"] else "False"
+    text = recipe_text(case)
+    r1 = run_child({"recipe": text, "reps": case["reps1"], "plugin_options": opts, "want_continuation": True})
+    if r1.get("outcome") != "ok" or not r1.get("continuation"):
+        return r1, None
+    r2 = run_child({"recipe": text, "reps": case["reps2"], "plugin_options": opts, "continuation": r1["continuation"]})
+    return r1, r2
+
+
+def persisted_generators(continuation_text):
+    """[{key: scalar text}] for every UniqueNumericIdGenerator node of a continuation file, in file order."""
+    import yaml
+
+    out = []
+
+    def walk(node):
+        if isinstance(node, yaml.SequenceNode):
+            if str(node.tag).endswith("UniqueId.UniqueNumericIdGenerator") and node.value and isinstance(node.value[0], yaml.MappingNode):
+                out.append({k.value: (None if v.tag.endswith(":null") else v.value) for k, v in node.value[0].value})
+                return
+            for c in node.value:
+                walk(c)
+        elif isinstance(node, yaml.MappingNode):
+            for k, v in node.value:
+                walk(v)
+
+    walk(yaml.compose(continuation_text))
+    return out
+
+
+def child_values(res):
+    vals = []
+    for _t, fields in res.get("rows") or []:
+        for name, v in fields:
+            if name != "id" and not name.startswith("__"):
+                vals.append(v)
+    return vals
+
+
+def oracle_process(rep, case, label, res, gmeta, draws):
+    """All values produced within ONE process (a child) are pairwise distinct."""
+    from types import SimpleNamespace
+
+    seen = SeenAll()
+    created = res["created"]
+    values = child_values(res)
+    if len(created) != len(gmeta) or len(values) != len(draws):
+        return False
+    ks = {}
+    for h, v in zip(draws, values):
+        k = ks.get(h, 0)
+        ks[h] = k + 1
+        gm, c = gmeta[h], created[h]
+        if c.get("parts") is None or c.get("pid") is None or c.get("ctx") is None or c.get("start") is None:
+            return False
+        inst = SimpleNamespace(parts=c["parts"], pid=c["pid"], start=c["start"], unique_identifer=c["ctx"])
+        if gm["kind"] == "alpha" and isinstance(v, dict) and v.get("t") == "float":
+            rep.violation("C13:code-reinterpreted-as-float", f"{label}: alphabetic code came out as the float {v['v']}", case,
+                          "a string over the alphabet", v)
+            continue
+        v = _plain(v)
+        info = {"gen": (label, c["serial"]), "k": k, "tuple": tuple_of(inst, k), "template": c["parts"], "kind": gm["kind"],
+                "alphabet": gm["alphabet"], "randomize": gm["randomize"], "process": label}
+        seen.add(rep, case, v, info)
+        if gm["kind"] == "alpha":
+            check_alpha_shape(rep, case, v if isinstance(v, str) else str(v), gm["alphabet"], gm["min_chars"], label)
+    return True
+
+
+def check_resume_cases(cases, rep, defaults, workers=8):
+    """Scenario family "continuation resumed in a fresh process" (each run is its own process)."""
+    from concurrent.futures import ThreadPoolExecutor
+
+    if not cases:
+        return
+    with ThreadPoolExecutor(max_workers=workers) as ex:
+        pairs = list(ex.map(resume_pair, cases))
+    # model, run 1
+    plans1 = [recipe_ops(c, defaults, reps=c["reps1"]) for c in cases]
+    res1 = model_eval([{"m": "c13.proc", "first_ctx": (r1.get("first_ctx") or 1), "ops": pl[0]} for (r1, _), pl in zip(pairs, plans1)])
+    reqs2, plans2 = [], []
+    for case, (r1, r2), pl1, (st, m1) in zip(cases, pairs, plans1, res1):
+        nh = len(case.get("holders", []))
+        rep.case(case, nontrivial=nh >= 1 and r2 is not None and r2.get("outcome") == "ok")
+        rep.count("resume:pairs")
+        rep.count("resume:run1:" + str(r1.get("outcome")))
+        rep.traces_validated += 1
+        if r1.get("outcome") != "ok" or r2 is None:
+            rep.disagreement("c13.resume-run1", case, "ok", {"outcome": r1.get("outcome"), "error": r1.get("error")})
+            plans2.append(None)
+            continue
+        if st != "ok" or [o for o in m1["outs"] if o[0] == "failed"]:
+            rep.disagreement("c13.resume-run1", case, {"model": str(m1)[:300]}, "ok")
+            plans2.append(None)
+            continue
+        ops1, gmeta1, draws1 = pl1
+        if not oracle_process(rep, case, "run 1", r1, gmeta1, draws1):
+            rep.disagreement("c13.resume-shape", case, {"run": 1, "generators": len(gmeta1), "values": len(draws1)},
+                             {"generators": len(r1["created"]), "values": len(child_values(r1))})
+            plans2.append(None)
+            continue
+        mv1 = [o[3] for o in m1["outs"] if o[0] == "value"]
+        v1 = child_values(r1)
+        if len(mv1) != len(v1) or not all(_same(a, b) for a, b in zip(mv1, v1)):
+            rep.disagreement("c13.resume-run1-values", case, mv1[:6], [_plain(v) for v in v1[:6]])
+        # what was persisted: the file against the model's `reduceGen` of the holder generators
+        # (holders are the first generators created in run 1)
+        msaved = [m1["gens"][j]["saved"] for j in range(nh)]
+        fsaved = persisted_generators(r1["continuation"])
+        fs_canon = []
+        for d in fsaved:
+            fs_canon.append({"keys": sorted(d), "parts": d.get("parts"), "randomize": d.get("randomize"), "start": d.get("start")})
+        prs = model_eval([{"m": "c13.parse", "template": d.get("parts") or ""} for d in fsaved])
+        ok = len(fsaved) == nh
+        if ok:
+            for d, (pst, pv), ms in zip(fsaved, prs, msaved):
+                ok = ok and sorted(d) == ["min_chars", "parts", "randomize", "start"] and pst == "ok" and ms is not None \
+                    and pv.get("parts") == ms["parts"] and str(d.get("randomize")).lower() == str(ms["randomize"]).lower() \
+                    and str(d.get("start")) == str(ms["start"])
+        if not ok:
+            rep.disagreement("c13.resume-persisted-state", case, msaved, fs_canon)
+        pl2 = recipe_ops(case, defaults, reps=case["reps2"], restored=msaved if all(m is not None for m in msaved) else [])
+        plans2.append(pl2)
+        reqs2.append({"m": "c13.proc", "first_ctx": (r2.get("first_ctx") or 1), "ops": pl2[0]})
+    res2 = iter(model_eval(reqs2))
+    for case, (r1, r2), pl2 in zip(cases, pairs, plans2):
+        if pl2 is None:
+            continue
+        st, m2 = next(res2)
+        rep.count("resume:run2:" + str(r2.get("outcome")))
+        nh = len(case.get("holders", []))
+        ops2, gmeta2, draws2 = pl2
+        if r2.get("outcome") != "ok":
+            rep.disagreement("c13.resume-run2", case, "ok", {"outcome": r2.get("outcome"), "error": r2.get("error")})
+            continue
+        rep.count("resume:values-run2", len(draws2))
+        if not oracle_process(rep, case, "run 2 (resumed in a fresh process)", r2, gmeta2, draws2):
+            rep.disagreement("c13.resume-shape", case, {"run": 2, "generators": len(gmeta2), "values": len(draws2)},
+                             {"generators": len(r2["created"]), "values": len(child_values(r2))})
+            continue
+        if st != "ok":
+            rep.disagreement("c13.resume-run2", case, {"driver-error": m2}, "ok")
+            continue
+        # restored generator state: context number and start, against the model's `Op.restore`
+        mstate = [[g["ctx"], g["start"]] for g in m2["gens"][:nh]]
+        cstate = [[c["ctx"], c["start"]] for c in r2["created"][:nh]]
+        if mstate != cstate:
+            rep.disagreement("c13.resume-restored-state", case, {"ctx,start": mstate}, {"ctx,start": cstate})
+        mv2 = [o[3] for o in m2["outs"] if o[0] == "value"]
+        v2 = child_values(r2)
+        if [o for o in m2["outs"] if o[0] == "failed"] or len(mv2) != len(v2) or not all(_same(a, b) for a, b in zip(mv2, v2)):
+            idx = next((i for i, (a, b) in enumerate(zip(mv2, v2)) if not _same(a, b)), -1)
+            rep.disagreement("c13.resume-run2-values", case, {"first_difference_at_value": idx, "model": mv2[idx : idx + 3] if idx >= 0 else len(mv2)},
+                             {"code": [_plain(v) for v in v2[idx : idx + 3]] if idx >= 0 else len(v2)})
+
+
+def gen_resume_case(rng):
+    """A generator object stored in the hidden field of a just_once row and drawn from by later
+    templates, next to the builtins / plugin default / `var` generators; run 2 resumes in a
+    fresh process and usually runs longer than run 1."""
+    big = rng.random() < 0.4
+    base = "pid,context,index" if big else "context,index"
+    holders = []
+    for _ in range(rng.choice([1, 1, 2])):
+        r = rng.random()
+        holders.append(None if r < 0.5 else base if r < 0.7 else respell(base, rng).replace("\t", " ") if r < 0.85
+                       else rng.choice(["5,context,index", "context,pid,index", "pid,index"]))
+    gens = []
+    for _ in range(rng.choice([0, 0, 1, 2])):
+        if rng.random() < 0.7:
+            gens.append({"type": "num", "template": rng.choice([None, None, base, "5,context,index"])})
+        else:
+            gens.append({"type": "alpha", "template": rng.choice([None, "context,index"]), "alphabet": rng.choice([None, "ACGT"])})
+    fields = [["h", j] for j in range(len(holders))] + [["g", i] for i in range(len(gens))]
+    fields += [["builtin_id"]] if rng.random() < 0.85 else []
+    fields += [["plugin_id"]] if rng.random() < 0.6 else []
+    fields += [["builtin_alpha"]] if rng.random() < 0.3 else []
+    rng.shuffle(fields)
+    reps1 = rng.randint(1, 2)
+    return {"kind": "resume", "pid": rng.choice([None, 3, 111, 3333333333333333]), "big_ids": big, "version": rng.choice([2, 3]),
+            "holders": holders, "gens": gens, "fields": fields, "count": rng.randint(1, 4),
+            "reps1": reps1, "reps2": reps1 + rng.randint(0, 3), "reps": reps1}
+
+
 # ------------------------------------------------------------------ case evaluation
 
 
@@ -483,7 +725,9 @@ def check_cases(cases, rep, seen, defaults):
     flat = []
     for case in cases:
         flat += case["cases"] if case["kind"] == "multi" else [case]
-    cases = flat
+    resume = [c for c in flat if c["kind"] == "resume"]
+    check_resume_cases(resume, rep, defaults)
+    cases = [c for c in flat if c["kind"] != "resume"]
     for case in cases:
         kind = case["kind"]
         if kind == "tuple":
@@ -607,7 +851,7 @@ def check_cases(cases, rep, seen, defaults):
             values = []  # canonical captured values (typed), in row/field order
             for _t, fields in r.rows:
                 for name, v in fields:
-                    if name != "id":
+                    if name != "id" and not name.startswith("__"):
                         values.append(v)
             if r.outcome == "ok":
                 if len(created) != len(gmeta) or len(values) != len(draws):
@@ -969,6 +1213,16 @@ FIXED = [
 ]
 
 
+RESUME_FIXED = [
+    # smallest shape: one stored default generator, the builtin next to it, run 2 longer than run 1
+    {"kind": "resume", "pid": None, "big_ids": False, "version": 3, "holders": [None], "gens": [],
+     "fields": [["h", 0], ["builtin_id"]], "count": 2, "reps1": 1, "reps2": 2, "reps": 1},
+    {"kind": "resume", "pid": 111, "big_ids": True, "version": 2, "holders": [None, "pid, Context, index"],
+     "gens": [{"type": "num", "template": None}], "fields": [["builtin_id"], ["h", 1], ["g", 0], ["h", 0], ["plugin_id"]],
+     "count": 3, "reps1": 1, "reps2": 3, "reps": 1},
+]
+
+
 def run(ctx, rep, findings):
     rep.rule = (
         "tuple codings (1-6 components, biased to 0 / 7 / 8 / 9 / 63 / 64 and huge values); scramble_number on numbers of "
@@ -1007,10 +1261,12 @@ def run(ctx, rep, findings):
     big = [gen_proc_case(rng, big=True) for _ in range(ctx.scale(4, 40))]
     procs += [gen_spelling_case(rng) for _ in range(ctx.scale(80, 600))]
     recipes += [gen_spelling_recipe(rng) for _ in range(ctx.scale(60, 500))]
+    resumes = [gen_resume_case(rng) for _ in range(ctx.scale(12, 60, search_factor=1))]
     mixed = procs + recipes
     rng.shuffle(mixed)
     cases += mixed + big
     cases.append(gen_mask_case(rng, 300))
+    check_cases(RESUME_FIXED + resumes, rep, seen, defaults)
     for i in range(0, len(cases), 300):
         check_cases(cases[i : i + 300], rep, seen, defaults)
         if ctx.time_left() < 60:
